@@ -169,6 +169,88 @@ func c04RuleLines(directive string, rules []c04Entry, flags string) (string, boo
 	return b.String(), true
 }
 
+// replacements (3-argument header_upstream, literal patterns): field=pat/to,pat/to;field=...
+type c04Repl struct {
+	field string
+	pairs [][2]string
+}
+
+func c04EncRepls(rs []c04Repl) string {
+	parts := make([]string, len(rs))
+	for i, r := range rs {
+		ps := make([]string, len(r.pairs))
+		for j, p := range r.pairs {
+			ps[j] = hx.HS(p[0]) + "/" + hx.HS(p[1])
+		}
+		parts[i] = hx.HS(r.field) + "=" + strings.Join(ps, ",")
+	}
+	return strings.Join(parts, ";")
+}
+
+func c04DecRepls(s string) ([]c04Repl, bool) {
+	if s == "" {
+		return nil, true
+	}
+	var out []c04Repl
+	for _, p := range strings.Split(s, ";") {
+		kv := strings.SplitN(p, "=", 2)
+		if len(kv) != 2 {
+			return nil, false
+		}
+		r := c04Repl{field: hx.UnHS(kv[0])}
+		for _, pr := range strings.Split(kv[1], ",") {
+			ab := strings.SplitN(pr, "/", 2)
+			if len(ab) != 2 {
+				return nil, false
+			}
+			r.pairs = append(r.pairs, [2]string{hx.UnHS(ab[0]), hx.UnHS(ab[1])})
+		}
+		out = append(out, r)
+	}
+	return out, true
+}
+
+func c04Literal(s string) bool {
+	if s == "" {
+		return false
+	}
+	for i := 0; i < len(s); i++ {
+		c := s[i]
+		if !(c >= 'a' && c <= 'z' || c >= 'A' && c <= 'Z' || c >= '0' && c <= '9' || c == '-' || c == '_' || c == ' ' || c == '=' || c == ';' || c == '/' || c == ',') {
+			return false
+		}
+	}
+	return true
+}
+
+func c04ReplLines(directive string, rs []c04Repl) (string, bool) {
+	var b strings.Builder
+	for _, r := range rs {
+		if r.field == "" || !c04TokOK(r.field) || strings.HasPrefix(r.field, "+") || strings.HasPrefix(r.field, "-") {
+			return "", false
+		}
+		for _, p := range r.pairs {
+			// literal pattern, no `$` (template expansion) in the replacement
+			if !c04Literal(p[0]) || p[1] == "" || !c04Literal(p[1]) {
+				return "", false
+			}
+			fmt.Fprintf(&b, " %s %s %s %s\n", directive, c04Tok(r.field), c04Tok(p[0]), c04Tok(p[1]))
+		}
+	}
+	return b.String(), true
+}
+
+// the Authorization value the proxy makes from the credentials of a backend URL ("-" = none)
+func c04Cred(u *url.URL) string {
+	if u.User == nil {
+		return "-"
+	}
+	pw, _ := u.User.Password()
+	r := &http.Request{Header: http.Header{}}
+	r.SetBasicAuth(u.User.Username(), pw)
+	return hx.HS(r.Header.Get("Authorization"))
+}
+
 type c04Seen struct {
 	req    *http.Request
 	header http.Header
@@ -214,12 +296,20 @@ func c04Upstream(cfg string, tr http.RoundTripper) (proxy.Upstream, string) {
 }
 
 func c04ReqEval(f []string) (string, []string) {
-	if len(f) != 16 {
+	if len(f) != 18 {
 		return "bad-case", nil
 	}
 	method, path, rawpath, opaque, rawquery := hx.UnHS(f[0]), hx.UnHS(f[1]), hx.UnHS(f[2]), hx.UnHS(f[3]), hx.UnHS(f[4])
 	host, remote := hx.UnHS(f[5]), hx.UnHS(f[6])
 	hdrEntries := c04DecEntries(f[7])
+	repls, rok := c04DecRepls(f[17])
+	if !rok {
+		return "bad-case:repls", nil
+	}
+	replLines, rok := c04ReplLines("header_upstream", repls)
+	if !rok {
+		return "bad-case:repls", nil
+	}
 	cl, err1 := strconv.ParseInt(f[8], 10, 64)
 	bodyLen, err2 := strconv.Atoi(f[9])
 	bodySeed, err3 := strconv.ParseUint(f[10], 10, 64)
@@ -230,13 +320,14 @@ func c04ReqEval(f []string) (string, []string) {
 	rules := c04DecEntries(f[14])
 	flags := f[15]
 	tu, err := url.Parse(targetStr)
-	if err != nil || c04URLParts(tu) != f[11] || !c04TokOK(targetStr) || !c04TokOK(without) {
+	if err != nil || c04URLParts(tu) != f[11] || c04Cred(tu) != f[16] || !c04TokOK(targetStr) || !c04TokOK(without) {
 		return "bad-case:target", nil
 	}
 	ruleLines, ok := c04RuleLines("header_upstream", rules, flags)
 	if !ok {
 		return "bad-case:rules", nil
 	}
+	ruleLines += replLines
 	var cfg strings.Builder
 	cfg.WriteString("proxy / " + targetStr)
 	if strings.Contains(flags, "buffered") {
@@ -308,6 +399,12 @@ func c04ReqEval(f []string) (string, []string) {
 	}
 	if len(rules) > 0 {
 		tags = append(tags, "upstream-rules")
+	}
+	if len(repls) > 0 {
+		tags = append(tags, "upstream-replacements")
+	}
+	if tu.User != nil {
+		tags = append(tags, "upstream-credentials")
 	}
 	if without != "" {
 		tags = append(tags, "without")
@@ -630,22 +727,45 @@ var c04TQueries = []string{"", "t=1", "t=1&u=%2F"}
 var c04Remotes = []string{"192.0.2.1:4000", "[2001:db8::1]:4000", "10.1.2.3:1", "bad", "", "1.2.3.4", "[::1]", "a:b:c", "[::1]:", ":80", "[x]y:1", "h]:1", "[::1]:2:3"}
 var c04Methods = []string{"GET", "POST", "PUT", "DELETE", "PATCH", "HEAD", "OPTIONS", "PROPFIND", "get", "M-SEARCH"}
 
-func c04EmitReq(g *hx.Gen, method, reqTarget, host, remote string, hdr []c04Entry, cl int64, bodyLen int, seed uint64, target, without string, rules []c04Entry, flags string) {
+func c04EmitReq(g *hx.Gen, method, reqTarget, host, remote string, hdr []c04Entry, cl int64, bodyLen int, seed uint64, target, without string, rules []c04Entry, flags string, repls ...c04Repl) {
 	p, rp, q, ok := c04ParseTarget(reqTarget)
 	if !ok {
 		return
 	}
-	c04EmitReqRaw(g, method, p, rp, "", q, host, remote, hdr, cl, bodyLen, seed, target, without, rules, flags)
+	c04EmitReqRaw(g, method, p, rp, "", q, host, remote, hdr, cl, bodyLen, seed, target, without, rules, flags, repls...)
 }
 
-func c04EmitReqRaw(g *hx.Gen, method, p, rp, opaque, q, host, remote string, hdr []c04Entry, cl int64, bodyLen int, seed uint64, target, without string, rules []c04Entry, flags string) {
+func c04EmitReqRaw(g *hx.Gen, method, p, rp, opaque, q, host, remote string, hdr []c04Entry, cl int64, bodyLen int, seed uint64, target, without string, rules []c04Entry, flags string, repls ...c04Repl) {
 	tu, err := url.Parse(target)
 	if err != nil {
 		return
 	}
 	g.Case(hx.HS(method), hx.HS(p), hx.HS(rp), hx.HS(opaque), hx.HS(q), hx.HS(host), hx.HS(remote), c04EncEntries(hdr),
 		strconv.FormatInt(cl, 10), strconv.Itoa(bodyLen), strconv.FormatUint(seed, 10), c04URLParts(tu), hx.HS(target), hx.HS(without),
-		c04EncEntries(rules), flags)
+		c04EncEntries(rules), flags, c04Cred(tu), c04EncRepls(repls))
+}
+
+var c04ReplPairs = [][2]string{{"a", "b"}, {"e", "ee"}, {"x", "x-p"}, {"text", "TEXT"}, {"keep", "k"}, {"1", "one two"}, {"/", "//"}, {"b", "a"}}
+
+// replacement entries on pairwise distinct fields
+func c04RandRepls(r *hx.Rng, names []string) []c04Repl {
+	n := r.Intn(3)
+	used := map[string]bool{}
+	var rs []c04Repl
+	for i := 0; i < n; i++ {
+		t := textproto.CanonicalMIMEHeaderKey(hx.Pick(r, names))
+		if used[t] {
+			continue
+		}
+		used[t] = true
+		k := 1 + r.Intn(2)
+		ps := make([][2]string, k)
+		for j := range ps {
+			ps[j] = hx.Pick(r, c04ReplPairs)
+		}
+		rs = append(rs, c04Repl{c04CaseMix(r, t), ps})
+	}
+	return rs
 }
 
 func c04ReqGen(g *hx.Gen) {
@@ -739,6 +859,28 @@ func c04ReqGen(g *hx.Gen) {
 			c04EmitReq(g, "GET", "/x", host, ra, plain, 0, 0, 0, "http://backend.test:8080", "", append(append([]c04Entry{}, tr...), c04Entry{"+X-Tag", []string{"t"}}), "transparent")
 		}
 	}
+	// 5b. upstream credentials x what the client sent as Authorization; replacements x value shapes
+	for _, cred := range []string{"", "user:pw@", "u:@", "only@"} {
+		for _, auth := range [][]string{nil, {"Bearer x"}, {""}, {"", "Bearer x"}, {"Bearer x", "Bearer y"}} {
+			es := []c04Entry{{"Accept", []string{"*/*"}}}
+			if auth != nil {
+				es = append(es, c04Entry{"Authorization", auth})
+			}
+			c04EmitReq(g, "GET", "/x", "front.test", "192.0.2.1:4000", es, 0, 0, 0, "http://"+cred+"backend.test:8080", "", nil, "")
+			c04EmitReq(g, "GET", "/x", "front.test", "192.0.2.1:4000", es, 0, 0, 0, "http://"+cred+"backend.test:8080", "", []c04Entry{{"-Authorization", []string{""}}}, "")
+		}
+	}
+	for _, vals := range [][]string{nil, {"edge"}, {"", "edge"}, {"edge", "second"}, {"eee"}, {"none"}} {
+		for _, ps := range [][][2]string{{{"e", "ee"}}, {{"edge", "edge-p"}}, {{"e", "x"}, {"x", "e"}}, {{"d", "dd"}, {"d", "D"}}} {
+			for _, rule := range [][]c04Entry{nil, {{"+X-Via", []string{"edge"}}}, {{"X-Via", []string{"dede"}}}} {
+				es := []c04Entry{{"Accept", []string{"*/*"}}}
+				if vals != nil {
+					es = append(es, c04Entry{"X-Via", vals})
+				}
+				c04EmitReq(g, "GET", "/x", "front.test", "192.0.2.1:4000", es, 0, 0, 0, "http://backend.test:8080", "", rule, "", c04Repl{"x-via", ps})
+			}
+		}
+	}
 	// 6. seeded random: everything at once
 	N := 2500
 	if g.Thorough() {
@@ -776,8 +918,15 @@ func c04ReqGen(g *hx.Gen) {
 		if r.Chance(1, 4) {
 			fl = "buffered"
 		}
+		if r.Chance(1, 4) {
+			target = strings.Replace(target, "://", "://"+hx.Pick(r, []string{"user:pw@", "u:@", "only@", "a%40b:p%3Aw@"}), 1)
+		}
+		var repls []c04Repl
+		if r.Chance(1, 3) {
+			repls = c04RandRepls(r, names)
+		}
 		c04EmitReq(g, hx.Pick(r, c04Methods), rt, hx.Pick(r, []string{"front.test", "front.test:8080", "[::1]:2015"}), hx.Pick(r, c04Remotes[:4]),
-			hdr, cl, n, r.U64()%1000, target, hx.Pick(r, c04Withouts), c04RandRules(r, names), fl)
+			hdr, cl, n, r.U64()%1000, target, hx.Pick(r, c04Withouts), c04RandRules(r, names), fl, repls...)
 	}
 	// 7. malformed / directly constructed requests: arbitrary path, raw path and opaque bytes, odd keys
 	M := 300
